@@ -461,3 +461,35 @@ Proof.
   rewrite Ec. destruct (length (filter _ tracks)); [|reflexivity].
   rewrite (Nat.add_comm e), (R2 e). reflexivity.
 Qed.
+
+(* (b) as `to_base` calls it: distribute_item_space_to_base_size chooses the filter and the proportion *)
+Theorem base_size_fuel_suffices (is_flex uff : bool) (sp : Q) (tracks : list (track XQ)) (aff : track XQ -> bool) (lim : track XQ -> XQ)
+        (ct : contribution_type) :
+  inc_inv aff -> inc_inv lim -> Forall (dist_ok (base_size_proportion is_flex uff) base_size lim) tracks ->
+  forall e1 e2, base_size_fuelled e1 e2 is_flex uff (Fin sp) tracks aff lim ct
+                = distribute_item_space_to_base_size is_flex uff (Fin sp) tracks aff lim ct.
+Proof.
+  intros Haff Hlim Hok e1 e2. unfold base_size_fuelled, distribute_item_space_to_base_size, base_size_proportion in *.
+  destruct is_flex; [destruct uff|]; cbn [andb] in Hok.
+  - apply base_inner_fuel_suffices; auto using inc_inv_flex_factor, inc_inv_andb, inc_inv_is_flexible.
+  - apply (base_inner_fuel_suffices sp tracks _ (fun _ => Fin 1) lim ct); auto using inc_inv_andb, inc_inv_is_flexible. apply inc_inv_const.
+  - apply (base_inner_fuel_suffices sp tracks _ (fun _ => Fin 1) lim ct); auto. apply inc_inv_const.
+Qed.
+
+(* a boolean test of the class, for the computed examples *)
+Definition is_fin (x : XQ) : bool := match x with Fin _ => true | _ => false end.
+Definition is_pinf (x : XQ) : bool := match x with PInf => true | _ => false end.
+Definition dist_okb (p prop lim : track XQ -> XQ) (t : track XQ) : bool :=
+  is_fin (prop t) && (is_fin (lim t) || is_pinf (lim t)) && is_fin (incurred t) && Qle_bool 0 (val (incurred t))
+  && is_fin (p t) && Qle_bool 0 (val (p t)).
+Lemma is_fin_finite x : is_fin x = true -> finite x.
+Proof. destruct x; simpl; auto; discriminate. Qed.
+Lemma dist_okb_sound p prop lim l : forallb (dist_okb p prop lim) l = true -> Forall (dist_ok p prop lim) l.
+Proof.
+  intro Hb. apply Forall_forall. intros t Hin. rewrite forallb_forall in Hb. specialize (Hb t Hin). unfold dist_okb in Hb.
+  repeat (apply andb_true_iff in Hb; destruct Hb as [Hb ?]).
+  unfold dist_ok. repeat split; try (apply is_fin_finite; assumption); try (apply Qle_bool_iff; assumption).
+  match goal with Ho : (_ || _)%bool = true |- _ => apply orb_true_iff in Ho; destruct Ho as [Ho1|Ho2] end.
+  - left. apply is_fin_finite. exact Ho1.
+  - right. destruct (lim t); simpl in Ho2; try discriminate. reflexivity.
+Qed.
